@@ -79,18 +79,25 @@ def expected_addrs(kind: str = "inet") -> tuple:
 
 
 def make_logger_class(log: EventLog) -> type:
+    """hypercorn's own Logger, writing to two `logging.Logger` objects whose only handler files
+    the records in the event log: Logger.access / exception / warning ... run as they are (the
+    record is built, and lost, exactly as under a real handler)."""
+    import logging as pylog
+
     from hypercorn.logging import Logger
 
-    class RecordingLogger(Logger):
-        def __init__(self, config: Any) -> None:  # no handlers, no files
-            self.access_log_format = config.access_log_format
-            self.access_logger = None
-            self.error_logger = None
-
-        async def access(self, request: Any, response: Any, request_time: float) -> None:
-            # the record is built the way hypercorn.logging.Logger.access builds it (atoms and
-            # format string), so that code runs - and fails - exactly as under a real handler
-            line = self.access_log_format % self.atoms(request, response, request_time)
+    class AccessHandler(pylog.Handler):
+        def emit(self, record: Any) -> None:
+            atoms = record.args
+            request, response = getattr(atoms, "_verif", (None, None))
+            try:
+                line = record.getMessage()
+            except Exception as e:  # a format the atoms cannot fill: logging drops the record
+                log.add("access_format_error", error=repr(e))
+                return
+            if request is None:
+                log.add("access_unattributed", line=line)
+                return
             log.add(
                 "access",
                 path=request.get("path"),
@@ -100,30 +107,27 @@ def make_logger_class(log: EventLog) -> type:
                 line=line,
             )
 
-        async def critical(self, message: str, *a: Any, **k: Any) -> None:
-            log.add("errlog", level="critical", message=message)
+    class ErrorHandler(pylog.Handler):
+        def emit(self, record: Any) -> None:
+            if record.exc_info:
+                et = record.exc_info[0]
+                log.add("errlog", level="exception", message=record.msg,
+                        exc=et.__name__ if et else None)
+            else:
+                log.add("errlog", level=record.levelname.lower(), message=record.msg)
 
-        async def error(self, message: str, *a: Any, **k: Any) -> None:
-            log.add("errlog", level="error", message=message)
+    class RecordingLogger(Logger):
+        def __init__(self, config: Any) -> None:  # no files, no global logging configuration
+            self.access_log_format = config.access_log_format
+            self.access_logger = pylog.Logger("verif.access", pylog.INFO)
+            self.access_logger.addHandler(AccessHandler())
+            self.error_logger = pylog.Logger("verif.error", pylog.INFO)
+            self.error_logger.addHandler(ErrorHandler())
 
-        async def warning(self, message: str, *a: Any, **k: Any) -> None:
-            log.add("errlog", level="warning", message=message)
-
-        async def info(self, message: str, *a: Any, **k: Any) -> None:
-            log.add("errlog", level="info", message=message)
-
-        async def debug(self, message: str, *a: Any, **k: Any) -> None:
-            pass
-
-        async def exception(self, message: str, *a: Any, **k: Any) -> None:
-            import sys
-
-            et = sys.exc_info()[0]
-            log.add("errlog", level="exception", message=message,
-                    exc=et.__name__ if et else None)
-
-        async def log(self, level: int, message: str, *a: Any, **k: Any) -> None:
-            log.add("errlog", level=str(level), message=message)
+        def atoms(self, request: Any, response: Any, request_time: float) -> Any:
+            atoms = super().atoms(request, response, request_time)
+            atoms._verif = (request, response)  # which scope the record is about
+            return atoms
 
     return RecordingLogger
 
